@@ -783,10 +783,13 @@ def _run_ldr(case):
     tau = m.dvar() if nrows == 1 else m.dvar(nrows)
     x0 = m.dvar() if nrows == 1 else m.dvar(nrows)
     ops(5 + len(rvars))
-    for i in range(nrows):
-        cols = [j for j in range(d) if mask[i, j]]
-        if cols:
-            ops(Bd.declare_rect(y, [i], cols, rvars, nrows))
+    try:
+        for i in range(nrows):
+            cols = [j for j in range(d) if mask[i, j]]
+            if cols:
+                ops(Bd.declare_rect(y, [i], cols, rvars, nrows))
+    except Exception as exn:  # noqa
+        return {'status': 'vacuous', 'outcome': 'ldr:declaration raises %s' % Bd.errname(exn), 'ops': ops.n}
     pal = case['pal']
     B = np.array([[1.0, 2.0, 4.0], [8.0, 16.0, 32.0]])[:nrows, :d] * (1.0 if pal % 2 == 0 else -0.5)
     if pal % 4 >= 2:
